@@ -100,6 +100,11 @@ func c18run(c *c18Case, via string) c18Obs {
 			if sameText {
 				return 0, &c18SameTextErr{job: j}
 			}
+			if (c.N+j+len(c.Order))%4 == 0 {
+				// a job that hit a deadline of its own (e.g. the HTTP client's): its error wraps a context error although the
+				// request's context is live
+				return 0, fmt.Errorf("job %d failed: %w", j, context.DeadlineExceeded)
+			}
 			return 0, fmt.Errorf("job %d failed", j)
 		})
 	}
